@@ -556,14 +556,14 @@ func verifySnapshot(ctx context.Context, repo *repository.Repository, id string,
 	}
 	sn, err := data.LoadSnapshot(ctx, repo, rid)
 	if err != nil {
-		return fmt.Sprintf("snapshot %s cannot be loaded: %v", id[:8], err)
+		return fmt.Sprintf("LOADERR: snapshot %s cannot be loaded: %v", id[:8], err)
 	}
 	if sn.Tree == nil {
 		return "snapshot without tree"
 	}
 	nodes, err := loadTreeNodes(ctx, repo, *sn.Tree)
 	if err != nil {
-		return fmt.Sprintf("snapshot %s: root tree cannot be loaded: %v", id[:8], err)
+		return fmt.Sprintf("LOADERR: snapshot %s: root tree cannot be loaded: %v", id[:8], err)
 	}
 	var top *data.Node
 	for _, n := range nodes {
@@ -606,7 +606,7 @@ func compareNode(ctx context.Context, repo *repository.Repository, got *data.Nod
 		}
 		nodes, err := loadTreeNodes(ctx, repo, *got.Subtree)
 		if err != nil {
-			return fmt.Sprintf("%s: tree %v cannot be loaded: %v", path, got.Subtree.Str(), err)
+			return fmt.Sprintf("LOADERR: %s: tree %v cannot be loaded: %v", path, got.Subtree.Str(), err)
 		}
 		if len(nodes) != len(want.Kids) {
 			var names []string
@@ -628,7 +628,7 @@ func compareNode(ctx context.Context, repo *repository.Repository, got *data.Nod
 		for _, c := range got.Content {
 			b, err := repo.LoadBlob(ctx, restic.BlobHandle{ID: c, Type: restic.DataBlob}, nil)
 			if err != nil {
-				return fmt.Sprintf("%s: blob %v cannot be loaded: %v", path, c.Str(), err)
+				return fmt.Sprintf("LOADERR: %s: blob %v cannot be loaded: %v", path, c.Str(), err)
 			}
 			buf = append(buf, b...)
 		}
